@@ -14,7 +14,7 @@ abbrev Token := List Char
 
 /-- which index implementation the posting lists come from (only `EstimateLength` differs) -/
 inductive LeafKind where
-  | array | tree
+  | array | tree | compact
   deriving Repr, DecidableEq
 
 structure Index where
